@@ -392,8 +392,8 @@ class Driver:
         row vanished while pending and that were populated again."""
         m = self.model
         extra = []
-        if rec.get('ghost_failed'):     # the frame did not complete
-            return
+        if rec.get('ghost_failed') or rec.get('remove_fault_fired'):
+            return                      # the frame did not complete
         for e in rec.get('fuzzy_before', ()):
             if e not in m.rows:
                 continue
